@@ -13,6 +13,10 @@ Three streams:
                user subclass of the shipped class), and driven by 2-3 threads under a deterministic schedule; every call judged
                by the property, then the instance's public configuration and a plain call against a fresh instance
                (see c07_reent.py)
+  strref / heapstrref  libraries whose @string definitions refer to other definitions (chains, concatenations, aliases of
+               concatenations, mutual / self reference, undefined names, definition after use, duplicate definitions), used by
+               entry fields or by none, parsed with the empty and with the default stack x every configuration, stacks of 1..3,
+               the same instance twice, write_string; and against the heap model (see c07_strref.py)
 """
 from props import pubapi
 import copy
@@ -57,7 +61,14 @@ RULE = ("libraries parsed (default stack, empty stack, or with name / month / ke
         "judged against its input and everything handed out before, then the instance's public attributes are compared with "
         "what they read after construction and with a fresh instance, a plain call is judged and compared structurally with "
         "a fresh instance's result, and every library handed out with the copy taken then; oracle only (overlapping calls "
-        "have no counterpart in the heap model). distinct = distinct (document, parse option, stack, mode); non-trivial = "
+        "have no counterpart in the heap model); strref / heapstrref (props/c07_strref.py): documents whose @string definitions "
+        "form a reference graph (chains a = b, b = c; concatenations full = first # \" \" # last in every spelling of #; aliases "
+        "of concatenations; concatenations of concatenations; mutual and self reference; undefined names; the same name "
+        "defined twice), written leaves-first, heads-first or shuffled, each structure used by entry fields as a bare "
+        "reference, inside a concatenation, both, only through another used definition, or by none, entries before / after / "
+        "between the definitions, parsed with the empty stack and with the default stack x every configuration singly (Resolve "
+        "x16), stacks of 2-3 (half holding Resolve), the same instance twice, write_string (default path mostly), and resolve / "
+        "library / sort / write / stacks of the heap stream against the Coq model. distinct = distinct (document, parse option, stack, mode); non-trivial = "
         "the library has at least one entry or string block, i.e. some mutable field/value/metadata object that could be shared")
 TRUSTED = ["heap snapshotter harness/heapsnap.py: walks __dict__, list, dict, set, tuple; fails closed on any other object type; "
            "objects reachable only through C-level state or closures would be invisible (none in the shipped classes)",
@@ -357,6 +368,9 @@ def generate(rng, tier):
     # re-entrant and interleaved use of ONE instance (drawn after everything else: the streams above keep their inputs)
     import props.c07_reent as X
     cases += X.generate(rng, tier, _this())
+    # @string definitions that refer to other definitions (drawn after everything else again)
+    import props.c07_strref as S
+    cases += S.generate(rng, tier, _this())
     return cases
 
 
@@ -461,6 +475,9 @@ def impl(case):
         rec = H.impl(case, parse)
         if inp.get("rep_family"):
             rec["tags"] = list(rec.get("tags", [])) + ["heaprep_" + inp["rep_family"], "heaprep_sameclass_x%d" % _rep_count(inp["op"][1])]
+        if inp.get("strref") and "parse_raised" not in rec.get("tags", []):
+            import props.c07_strref as S
+            rec["tags"] = list(rec.get("tags", [])) + ["heap" + t for t in S.tags_for(inp, None, _this())]
         return rec
     if inp["kind"] == "rep":
         import props.c07_rep as R
@@ -480,6 +497,11 @@ def impl(case):
         rec.update(oracle={"ok": True, "detail": ""}, nontrivial=False, tags=["parse_raised"], summary="parse raised " + type(e).__name__)
         return rec
     kinds = [type(b).__name__ for b in lib.blocks]
+    if inp.get("strref"):
+        import props.c07_strref as S
+        tags += S.tags_for(inp, lib, _this())
+        tags.append("strref_%s_x%d" % (inp["kind"], len(inp.get("stack") or [])) if inp["kind"] != "write" else "strref_write" +
+                    ("_default_path" if inp.get("prepend") is None else "_prepend"))
     rec["nontrivial"] = any(k in ("Entry", "String") for k in kinds) or any(
         type(getattr(b, "ignore_error_block", None)).__name__ in ("Entry", "String") for b in lib.blocks)
     for k in set(kinds):
